@@ -153,6 +153,15 @@ pub fn run(config: Config) -> ::anyhow::Result<()> {
             .name("signals".into())
             .spawn(move || {
                 for signal in &mut signals {
+                    #[cfg(aquatic_verif)]
+                    match aquatic_common::verif::probe("ws.signals.loop") {
+                        aquatic_common::verif::ACTION_RETURN_OK => return Ok(()),
+                        aquatic_common::verif::ACTION_RETURN_ERR => {
+                            return Err(anyhow::anyhow!("verif: injected signals worker error"))
+                        }
+                        _ => (),
+                    }
+
                     match signal {
                         SIGUSR1 => {
                             let _ = update_access_list(&config.access_list, &state.access_list);
